@@ -275,7 +275,7 @@ def shards(tier, seed):
         sh("F-F-F-symkd", [F, F, F], sym=dict(kd=[1, 8], s0=SW, s1=SW, s2=SW))
         sh("F-W-V-symkd", [F, W, V], sym=dict(kd=[1, 8], s0=SW, s1=SW, s2=SW, d1=DW, d2=DW))
         sh("Q0-P1-W", [Q0, P1_, W], sym=dict(s0=SW, s1=SW, s2=SW, d2=DW, k0=[1, 4], k1=KW))
-        sh("V-V-V-V", [V, V, V, V])
+        sh("V-V-V-V", [V, V, V, V], sym=dict(s0=SW, d0=DW, s1=SW, d1=DW, s2=SW, d2=DW), vals=dict(s3=14, d3=2))
         sh("F-V-W-I", [F, V, W, I])
         sh("P0-P0-V-V", [P0, P0, V, V])
         sh("W-W-I-W", [W, W, I, W])
